@@ -197,7 +197,7 @@ func rulesC15(w *World, r *Report) {
 	reField := regexp.MustCompile(`(^|[^A-Za-z])(` + regexp.QuoteMeta(stepF) + `|` + regexp.QuoteMeta(ptsF) + `)$`)
 	isValidatedField := func(s string) bool {
 		s = strings.TrimSuffix(s, ")")
-		if strings.HasPrefix(s, "(*whispertool.ArchiveInfo).SecondsPerPoint(") || strings.HasPrefix(s, "(*whispertool.ArchiveInfo).NumberOfPoints(") {
+		if strings.HasPrefix(s, "whispertool.ArchiveInfo.SecondsPerPoint(") || strings.HasPrefix(s, "whispertool.ArchiveInfo.NumberOfPoints(") {
 			return aiOK
 		}
 		return aiOK && reField.MatchString(s)
